@@ -245,7 +245,7 @@ def gen(chk):
                 cases.append((prog, expect(w, list(range(1, k + 1)), b, k), "chain:" + name + "/" + w))
     rng.setstate(st)
     # nested, random
-    n = 500 if chk.tier == "quick" else 5000
+    n = 500 if chk.tier == "quick" else 15000
     for _ in range(n):
         ctr = Counter()
         text, holes = build(rng, rng.randint(1, 3), ctr)
